@@ -1,3 +1,6 @@
+import sys, os
+sys.path.insert(0, os.path.dirname(os.path.dirname(os.path.abspath(__file__))))
+from symex import summaries
 ID = "C18"
 PATTERNS = ["./base/unixutil", "./net/csptp", "./driver/clocks"]
 HARNESS_FILES = ["base/unixutil/zz_verif_c18.go", "net/csptp/zz_verif_c18.go", "driver/clocks/zz_verif_c18.go"]
@@ -12,12 +15,14 @@ HARNESSES = [
     {"name": "interval", "fn": M + "net/csptp.VerifC18Interval", "bounds": "every int64"},
     {"name": "formulas", "fn": M + "net/csptp.VerifC18Formulas", "cfg": {"time_mode": "ns64"}, "bounds": "instants < 2^58 ns, |theta|, d, corrections < 2^58 ns"},
     {"name": "drift", "fn": M + "driver/clocks.VerifC18Drift", "bounds": "every duration"},
+    {"name": "driftshape", "fn": M + "driver/clocks.VerifC18DriftShape", "install": [summaries.install_fp_duration_summaries], "cfg": {"fp_mul": "exact_const"},
+     "bounds": "intervals 0..2^62 ns, drift rates in (0, 0.01]: zero for zero, never negative, monotone in the interval (consequences of proportionality that do not need the exact floating-point product)"},
 ]
 ASSUMPTIONS = [
     "time.Time modelled by contract (pair model for timestamps, ns64 for the delay/offset formulas)",
-    "NOT DECIDED: frequency <-> scaled-ppm round trip beyond |x| <= 2^8 and 'drift proportional to the interval' are exact floating-point multiply/divide statements no back end decides (DESIGN C18)",
+    "NOT DECIDED: frequency <-> scaled-ppm round trip beyond |x| <= 2^8 and the exact value of the drift allowance are exact floating-point multiply/divide statements no back end decides (DESIGN C18); of 'proportional to the interval' the check decides: zero for a zero interval, sign, monotonicity in the interval",
 ]
 EXPLANATION = "unit conversions executed from go/ssa over full-width symbolic inputs"
 CLAIMED = True
-LEVEL_TEXT = "Bounded model checking of the real conversion functions over full-width symbolic inputs (every int64, every 48-bit second count, every int64 correction). Floating-point clauses: only sign/zero facts and the round trip for |x| <= 2^8 are decided; drift proportionality is not decided (exact FP multiply is out of solver reach)."
-LEVEL_NOTE = "time.Time by contract (pair / ns64 model); the frequency round trip beyond the stated range and drift proportionality are not claimed; solvers trusted."
+LEVEL_TEXT = "Bounded model checking of the real conversion functions over full-width symbolic inputs (every int64, every 48-bit second count, every int64 correction). Floating-point clauses: only sign/zero facts and the round trip for |x| <= 2^8 are decided; of drift proportionality the consequences zero/sign/monotonicity are decided (the exact FP product is out of solver reach)."
+LEVEL_NOTE = "time.Time by contract (pair / ns64 model); the frequency round trip beyond the stated range and the exact drift product are not claimed; solvers trusted."
